@@ -245,6 +245,9 @@ def make_scenario(rnd, kind):
         if kind == "spark" and rnd.intn(2):
             sc.ncols = rnd.pick([1, 2, 3])
             sc.extra = ["--sort-cols", "text", "--cols", str(sc.ncols)]
+        elif kind == "spark" and rnd.intn(3) == 0:
+            # a value-ordered column sort never trims the aggregate (b216f7d): the export is the whole table
+            sc.extra = ["--sort-cols", rnd.pick(["value", "value:asc", "VALUE:rev"]), "--cols", str(rnd.pick([1, 2, 3]))]
         elif kind == "table":
             sc.extra = rnd.pick([[], ["--sort-rows", "text"], ["-x"], ["--sort-cols", "numeric", "--cols", "2"]])
     elif kind == "bars":
@@ -327,6 +330,9 @@ def make_phase_scenario(rnd, kind):
         if rnd.intn(2):
             sc.ncols = rnd.pick([1, 2, 3, 5])
             sc.extra = ["--sort-cols", "text", "--cols", str(sc.ncols)]
+        elif kind == "spark" and rnd.intn(3) == 0:
+            # a value-ordered column sort never trims the aggregate (b216f7d): the export is the whole table
+            sc.extra = ["--sort-cols", rnd.pick(["value", "value:asc", "VALUE:rev"]), "--cols", str(rnd.pick([1, 2, 3]))]
     elif kind == "table":
         sc.extra = rnd.pick([[], ["--sort-rows", "text"], ["-x"], ["--sort-cols", "numeric", "--cols", "2"], ["--rows", "3"]])
     else:
@@ -871,6 +877,8 @@ def snap_check(sc, snap, rows, nsamples=None, nread=None, cache=None):
             # First / Last are the cells of the first / last DISPLAYED column: --sort-cols text as in the CSV, the default
             # `numeric` puts names that parse as numbers first, by magnitude (sorting.ByNameSmart)
             fi, la = 0, len(cols) - 1
+            if "--sort-cols" in sc.extra and sc.extra[sc.extra.index("--sort-cols") + 1].lower().startswith("value"):
+                return None     # displayed columns are ranked by their totals; footer (R, C of the untrimmed aggregate) checked above
             if cols and "--sort-cols" not in sc.extra:
                 if any(GOFLOATISH.match(c) for c in cols):
                     return None
@@ -1010,7 +1018,7 @@ def run_extra(ctx):
     nphase = 16 if not thorough else 140
     layouts = ["split", "shuffle", "redeal", "gzip", "stdin", "glob", "one"]
     ncpu = str(max(2, os.cpu_count() or 2))
-    KNOWN = ("spark-value-trim-timing", "snapshot-layout-memory", "analyze-mean-order")
+    KNOWN = ("snapshot-layout-memory", "analyze-mean-order")
     violations, stats, secs = [], {}, {}
     nruns = [0]
 
@@ -1337,11 +1345,11 @@ def run_extra(ctx):
         sc = make_scenario(rnd, kind)
         sc.cls = "random"
         check_scenario(sc)
-    # ---- timing-controlled spark truncation (F24)
+    # ---- timing-controlled spark truncation (F24, fixed by b216f7d: a value-ordered column sort no longer trims)
     fast, slow, cmd = spark_timing(exe)
     nruns[0] += 2
-    if fast != slow:
-        viol("spark-value-trim-timing", cmd=show(cmd), all_at_once=fast.decode(), with_pause=slow.decode(),
+    if fast != slow or fast != b",a,b,c\nr,3,5,1\n":
+        viol("spark-value-trim-timing", cmd=show(cmd), all_at_once=fast.decode(), with_pause=slow.decode(), expected=",a,b,c\nr,3,5,1\n",
              explanation="spark with a value-ordered column sort trims columns inside intermediate renders, so the exported table depends on render timing")
     # ---- timing-controlled padding of the final frame (F25)
     fast, slow, cmd = layout_memory_timing(exe)
